@@ -133,7 +133,8 @@ def mutate(rng, b, nmax=3):
 
 def mutation_histories(shapes, rng, n, start_id=0):
     hs = []
-    pool = [s for s in shapes if len(s["b"]) >= 14] or shapes
+    # mutants of predicted blow-ups mostly blow up again (seconds each): keep them out of the pool
+    pool = [s for s in shapes if len(s["b"]) >= 14 and s["o"]["res"] != "resource"] or shapes
     for i in range(n):
         s = rng.choice(pool)
         ld = load_cmd(mutate(rng, s["b"]), src="mut", c=s["c"])
@@ -228,8 +229,6 @@ def scaled_loads():
     out.append(load_cmd(list(b"MUS\x1a") + le16(3 * 20000) + le16(16) + le16(2) + le16(0) + le16(1) + [0, 0], [0x90, 60, 1], 20000, [], src="scaled", c="mus-delays-20000"))
     out.append(load_cmd(list(b"MUS\x1a") + le16(60001) + le16(16) + le16(2) + le16(0) + le16(1) + [0, 0, 0x80, 60], [0x81], 59998, [0], src="scaled", c="mus-delay-59998-groups"))
     ev = [0x90, 60, 100, 10]
-    x = xmi_file([])
-    cut = len(x) - 0      # EVNT chunk is the last thing in the file
     for nn in (15000,):
         body_len = 4 * nn + 3
         info = list(b"INFO") + be32(2) + le16(1)
